@@ -28,11 +28,15 @@ type RPlan struct {
 	Seed uint64
 	Reqs []Req
 	// what the relay itself believes about the target (it is asked all the same, and answers by the same rules)
+	// accusations about the relay itself delivered first: it refutes each, so its own health score is that much above zero
+	// (how long a relay waits, and what it does with a late acknowledgement, must not depend on it)
+	PreHealth   int    `json:",omitempty"`
 	TargetKnown string `json:",omitempty"` // "" unknown | dead | left (a target the relay holds alive would also be probed by the relay itself, which this test does not model)
 }
 
 func genRPlan(t *rapid.T) RPlan {
-	p := RPlan{Seed: rapid.Uint64Range(1, 1<<40).Draw(t, "seed"), TargetKnown: rapid.SampledFrom([]string{"", "", "dead", "left"}).Draw(t, "known")}
+	p := RPlan{Seed: rapid.Uint64Range(1, 1<<40).Draw(t, "seed"), TargetKnown: rapid.SampledFrom([]string{"", "", "dead", "left"}).Draw(t, "known"),
+		PreHealth: rapid.SampledFrom([]int{0, 0, 1, 2, 5}).Draw(t, "prehealth")}
 	at := 0
 	p.Reqs = rapid.SliceOfN(rapid.Custom(func(t *rapid.T) Req {
 		at += rapid.SampledFrom([]int{1, 2, 50, 299, 301, 700}).Draw(t, "gap")
@@ -111,6 +115,15 @@ func runR(pl RPlan) (res vfx.Result) {
 			send(pg.SeqNo+7, 100*time.Millisecond)
 		}
 		return true
+	}
+	for i := 0; i < pl.PreHealth; i++ {
+		p.Inject(req.Addr(), [][]byte{puppet.Claim{Kind: "suspect", Node: "n0", Inc: uint32(1000 * (i + 1)), From: "req"}.Leaf()}, puppet.Carrier{})
+	}
+	if pl.PreHealth > 0 {
+		if hs := p.M.GetHealthScore(); hs != min(pl.PreHealth, 7) {
+			return fail("setup: health score %d after %d refuted accusations", hs, pl.PreHealth)
+		}
+		labels[fmt.Sprintf("relay-health-%d", pl.PreHealth)] = true
 	}
 	if pl.TargetKnown != "" {
 		// (a departed or failed member is not probed by the relay itself and nothing is gossiped here)
